@@ -190,4 +190,81 @@ theorem exactlyOneBig_ones_append (lead n : ℕ) (hn : 2 ≤ n) :
   have : 1 < n := hn
   simp [this]
 
+/-! ## operand selection of merge layers, broadcasting (round 4) -/
+
+theorem pickLargestByAux_spec (key : List Nat → Nat) (rest : List (List Nat)) : ∀ best : List Nat,
+    (pickLargestByAux key best rest = best ∨ pickLargestByAux key best rest ∈ rest) ∧
+    key best ≤ key (pickLargestByAux key best rest) ∧
+    ∀ s ∈ rest, key s ≤ key (pickLargestByAux key best rest) := by
+  induction rest with
+  | nil => intro best; simp [pickLargestByAux]
+  | cons t rest ih =>
+    intro best
+    unfold pickLargestByAux
+    by_cases h : key t > key best
+    · simp only [h, if_true]
+      obtain ⟨h1, h2, h3⟩ := ih t
+      refine ⟨?_, by omega, ?_⟩
+      · rcases h1 with h1 | h1
+        · right; rw [h1]; simp
+        · right; simp [h1]
+      · intro s hs
+        rcases List.mem_cons.mp hs with rfl | hs
+        · exact h2
+        · exact h3 s hs
+    · simp only [h, if_false]
+      obtain ⟨h1, h2, h3⟩ := ih best
+      refine ⟨?_, h2, ?_⟩
+      · rcases h1 with h1 | h1
+        · left; exact h1
+        · right; simp [h1]
+      · intro s hs
+        rcases List.mem_cons.mp hs with rfl | hs
+        · omega
+        · exact h3 s hs
+
+theorem pickLargestBy_spec (key : List Nat → Nat) (s0 : List Nat) (rest : List (List Nat)) :
+    pickLargestBy key (s0 :: rest) ∈ s0 :: rest ∧
+    ∀ s ∈ s0 :: rest, key s ≤ key (pickLargestBy key (s0 :: rest)) := by
+  obtain ⟨h1, h2, h3⟩ := pickLargestByAux_spec key rest s0
+  refine ⟨?_, ?_⟩
+  · simp only [pickLargestBy]
+    rcases h1 with h1 | h1
+    · rw [h1]; simp
+    · simp [h1]
+  · intro s hs
+    simp only [pickLargestBy]
+    rcases List.mem_cons.mp hs with rfl | hs
+    · exact h2
+    · exact h3 s hs
+
+theorem bcastTo_prod_le (s : List Nat) : ∀ full : List Nat, bcastTo s full → (∀ b ∈ full, 1 ≤ b) →
+    prodL s ≤ prodL full := by
+  induction s with
+  | nil =>
+    intro full h _
+    cases full with
+    | nil => simp [prodL]
+    | cons b f => simp [bcastTo] at h
+  | cons a s' ih =>
+    intro full h hpos
+    cases full with
+    | nil => simp [bcastTo] at h
+    | cons b f' =>
+      simp only [bcastTo] at h
+      obtain ⟨hab, hrest⟩ := h
+      have hb : 1 ≤ b := hpos b (by simp)
+      have ih' := ih f' hrest (fun x hx => hpos x (by simp [hx]))
+      have e1 : prodL (a :: s') = a * prodL s' := by simp [prodL]
+      have e2 : prodL (b :: f') = b * prodL f' := by simp [prodL]
+      rw [e1, e2]
+      rcases hab with rfl | rfl
+      · exact Nat.mul_le_mul_left _ ih'
+      · calc 1 * prodL s' ≤ 1 * prodL f' := Nat.mul_le_mul_left _ ih'
+          _ ≤ b * prodL f' := Nat.mul_le_mul_right _ hb
+
+theorem macMerge_eq_prodL (shape : List Nat) : macMerge shape = prodL shape := by
+  simp [macMerge, mergeNest]
+
+
 end QKV.C19
